@@ -7,6 +7,7 @@ import scipy.stats
 from scipy.spatial.distance import jensenshannon
 
 from bounded.lib import Result, load_known, VERIF
+from bounded import catalog as C
 
 REPLAY = '''import sys, warnings
 warnings.filterwarnings("ignore")
@@ -232,4 +233,15 @@ def run(tier, seed, repo, focus=None):
         if msg:
             res.violation("HDM distance: " + msg, "import sys\nsys.path.insert(0, %r)\nfrom bounded import b_C07\nm = b_C07.check_metric(%r)\nassert m is None, m\n" % (VERIF, scn), known)
     res.sample({"check": "HDDDM recomputation", "scenario": {"detect_batch": 2, "statistic": "tstat", "d": 2, "batches": 12}})
+    # the decisions are about the observations that were SUPPLIED: a caller that re-uses / overwrites its buffers after each
+    # call must get the same outputs as one that passes private copies (the aliasing scenarios of C15, run here for HDDDM / CDBD)
+    from bounded import drivers as _drv
+    _scns = []
+    for _name in ['HDDDM', 'CDBD']:
+        _d = C.DETECTORS[_name]
+        for _v in range(len(_d["variants"]) if not quick else 1):
+            for _mode in ("c", "view", "df"):
+                _scns.append({"det": _name, "variant": _v, "seed": seed, "n": 8, "mode": _mode})
+    _drv.run_scenarios(res, "no_alias", _scns, known)
+    _drv.run_scenarios(res, "no_alias_reref", [dict(x, n=9, reref=[3, 6]) for x in _scns], known)
     return res.finish()
